@@ -12,6 +12,7 @@ import (
 	"github.com/deepteams/webp/animation"
 	"github.com/deepteams/webp/internal/zzverif/imgs"
 	"github.com/deepteams/webp/internal/zzverif/riffwalk"
+	"github.com/deepteams/webp/internal/zzverif/vp8lgen"
 )
 
 // namedFile is one seed file of the fault-enumeration corpus.
@@ -166,5 +167,50 @@ func animCorpus(seed int64) []namedFile {
 	out = append(out, namedFile{"anim-hand-lossy-alpha", riffwalk.RIFF(
 		riffwalk.VP8X(riffwalk.FlagAnim|riffwalk.FlagAlpha, 8, 8), riffwalk.ANIM(0, 0),
 		riffwalk.ANMF(0, 0, 6, 6, 30, false, false, sub), riffwalk.ANMF(2, 2, 6, 6, 30, true, true, sub)), false})
+	return out
+}
+
+// presetPicker answers the generator's picks from a label->value table.
+type presetPicker map[string]int
+
+func (p presetPicker) Pick(n int, label string) int {
+	if v, ok := p[label]; ok && v < n {
+		return v
+	}
+	return 0
+}
+func (p presetPicker) Free(n int, label string) int { return p.Pick(n, label) }
+
+// genCorpus returns RIFF-wrapped VP8L streams from the syntax-directed
+// generator: valid files that no encoder emits (used as fault-enumeration
+// seeds by C05 and as decode cases elsewhere).
+func genCorpus(seed int64) []namedFile {
+	var out []namedFile
+	add := func(name string, p presetPicker) {
+		s, _ := vp8lgen.Generate(p, seed)
+		out = append(out, namedFile{"gen-" + name, riffwalk.RIFF(riffwalk.ChunkBytes("VP8L", s)), true})
+	}
+	dims := map[string]int{"4x4": 0, "1x17": 3, "2x9": 4, "9x4": 9}
+	for dn, di := range dims {
+		add(dn+"-base", presetPicker{"dims": di})
+		for c := 1; c <= 7; c++ {
+			add(fmt.Sprintf("%s-copies%d", dn, c), presetPicker{"dims": di, "main-copies": c})
+		}
+		for c := 1; c <= 6; c += 2 {
+			add(fmt.Sprintf("%s-cache%d", dn, c), presetPicker{"dims": di, "main-cache": c})
+		}
+	}
+	for m := 1; m <= 4; m++ {
+		add(fmt.Sprintf("9x4-meta%d", m), presetPicker{"dims": 9, "meta": m, "main-cache": 5})
+	}
+	for sh := 1; sh <= 4; sh++ {
+		add(fmt.Sprintf("9x4-shape%d", sh), presetPicker{"dims": 9, "main-code-shape": sh, "main-copies": 3})
+	}
+	// a few transform orders, with sub-image features
+	for i, o := range vp8lgen.TransformOrders {
+		if len(o) == 1 || len(o) == 4 && i%7 == 0 || len(o) == 2 && o[0] == 3 {
+			add(fmt.Sprintf("16x3-order%d", i), presetPicker{"dims": 10, "transforms": i, "sub-copies": 6, "pred-mode": 0})
+		}
+	}
 	return out
 }
